@@ -13,6 +13,7 @@ import IdpyVerif.Driver.Resolve
 import IdpyVerif.Driver.FileStore
 import IdpyVerif.Driver.IdToken
 import IdpyVerif.Driver.RPState
+import IdpyVerif.Driver.Interop
 open Idpy
 
 structure DState where
@@ -34,6 +35,7 @@ def dispatch (st : DState) (fields : List String) : DState × String :=
   | "redir" :: args => (st, (Driver.Redirect.handle args).getD "bad-op")
   | "msg" :: args => (st, (Driver.Msg.handle args).getD "bad-op")
   | "cookie" :: args => (st, (Driver.C17.handle args).getD "bad-op")
+  | "interop" :: args => (st, (Driver.Interop.handle args).getD "bad-op")
   | "rps" :: args =>
     let (h', out) := Driver.RPState.stepLine st.rps args
     ({ st with rps := h' }, out)
